@@ -110,7 +110,7 @@ func c09Applicable(p *gen.Program) ([]c09Transform, []gen.Boundary) {
 		}
 		ts = append(ts, c09Transform{"blanks", b.Seq}, c09Transform{"tab", b.Seq})
 		if !(excluded["cont_before_linebreak_newline"] && b.Next != nil && b.Next.Kind == gen.KNewline && b.Prev != nil && b.Prev.LinebreakAfter) {
-			ts = append(ts, c09Transform{"continuation", b.Seq})
+			ts = append(ts, c09Transform{"continuation", b.Seq}, c09Transform{"blank+continuation", b.Seq}, c09Transform{"continuation+blank", b.Seq})
 		}
 		if b.BeforeNewline && (b.Stream.Open != "`" || b.AtEnd) {
 			ts = append(ts, c09Transform{"comment", b.Seq})
@@ -147,6 +147,10 @@ func c09Apply(p *gen.Program, ts []c09Transform) (string, []string, string) {
 			lay[t.seq] = gen.GapText{Blanks: "\t"}
 		case "continuation":
 			lay[t.seq] = gen.GapText{Cont: true}
+		case "blank+continuation":
+			lay[t.seq] = gen.GapText{Blanks: " ", Cont: true}
+		case "continuation+blank":
+			lay[t.seq] = gen.GapText{Cont: true, After: " "}
 		case "comment":
 			lay[t.seq] = gen.GapText{Comment: fmt.Sprintf(" c%d é;|&", k)}
 			if k%4 == 3 {
